@@ -206,6 +206,9 @@ func runC12(x *Ctx) {
 			if pol, has := p.FactOn("call[" + segT + "Optional](" + elem + ")"); has && !pol {
 				okIdiom = true
 			}
+			if pol, has := p.FactOn(elem + ".optional"); has && !pol {
+				okIdiom = true // the flag read directly (a method of segment spliced into the path)
+			}
 			if !okIdiom {
 				bad += x.P.Pos(p.Ret.Pos()) + ": the " + k + " case returns an error without consulting Optional(): an optional segment must yield 'no value'\n"
 			}
@@ -413,13 +416,23 @@ func isOptionalIdiom(x *Ctx, g *ssa.Function) bool {
 	if err != nil || len(ps) != 2 {
 		return false
 	}
-	opt := "call[" + segT + "Optional](arg0)"
+	// a function (segment, error) or a method of segment taking the error: the test is Optional() or the field
+	seg, errP := "arg0", "arg1"
+	if g.Signature.Recv() != nil {
+		seg, errP = "recv", "arg0"
+	}
+	opts := []string{"call[" + segT + "Optional](" + seg + ")", seg + ".optional"}
 	okT, okF := false, false
 	for _, p := range ps {
 		if p.End != paths.EndReturn || len(p.Results()) != 1 {
 			return false
 		}
-		pol, has := p.FactOn(opt)
+		pol, has := false, false
+		for _, opt := range opts {
+			if v, ok := p.FactOn(opt); ok {
+				pol, has = v, true
+			}
+		}
 		if !has {
 			return false
 		}
@@ -427,7 +440,7 @@ func isOptionalIdiom(x *Ctx, g *ssa.Function) bool {
 		if pol && r.IsNil() {
 			okT = true
 		}
-		if !pol && r.String() == "arg1" {
+		if !pol && r.String() == errP {
 			okF = true
 		}
 	}
